@@ -1,9 +1,9 @@
 /-
 Executable model of the farm module: modules/farm/keeper/{pool,farmer,queue,fees,msg_server}.go,
 types/{farm,msgs,validation}.go and abci.go (EndBlocker), followed line by line, including
-the behaviour that is wrong (floored reward debts; `AdjustPool` dropping the zero-available
-denomination in the end block; partial writes of a failing `Refund` inside the EndBlocker,
-which has no transaction cache).
+the behaviour that is wrong (floored reward debts; partial writes of a failing `Refund` inside
+the EndBlocker, which has no transaction cache).  `AdjustPool` follows the code after commit
+966aea0 (end height bounded by every reward rule).
 
 A rejected or panicking *message* leaves the state unchanged (the transaction cache is
 discarded).  The EndBlocker writes directly: a `Refund` that fails half-way keeps what it
@@ -412,19 +412,18 @@ def availableReward (started : Bool) (remH : Nat) (add : CoinList) (rs : List Ru
   if started then nonzero (rs.map fun r => (r.denom, r.rpb * remH + amountOf add r.denom))
   else nonzero (rs.map fun r => (r.denom, r.total))
 
-/-- min over the available coins of amount / rewardPerBlock (`none`: Int64() or division panic) -/
-def availableHeight (rs : List Rule) : CoinList → Option Nat
-  | [] => none
-  | [(d, n)] =>
-    match rs.find? (fun r => r.denom = d) with
-    | none => none
-    | some r => if r.rpb = 0 then none else if n / r.rpb ≥ pow63 then none else some (n / r.rpb)
-  | (d, n) :: rest =>
-    match rs.find? (fun r => r.denom = d), availableHeight rs rest with
-    | some r, some m =>
-      if r.rpb = 0 then none else if n / r.rpb ≥ pow63 then none
-      else some (if m > n / r.rpb then n / r.rpb else m)
-    | _, _ => none
+/-- `availableHeight` of `AdjustPool` (after commit 966aea0): the minimum over *every* reward
+rule of `availableReward.AmountOf(rule.reward) / rule.rewardPerBlock`, starting from the
+sentinel −1; `none`: division by zero or `Int64()` out of range (panic) -/
+def availableHeight (avail : CoinList) : List Rule → Option Int
+  | [] => some (-1)
+  | r :: rs =>
+    if r.rpb = 0 then none
+    else if amountOf avail r.denom / r.rpb ≥ pow63 then none
+    else match availableHeight avail rs with
+      | none => none
+      | some m => some (if m < 0 ∨ m > ((amountOf avail r.denom / r.rpb : Nat) : Int)
+                        then ((amountOf avail r.denom / r.rpb : Nat) : Int) else m)
 
 /-- top-up and `UpdateWith` -/
 def adjustRules (add rpb : CoinList) (rs : List Rule) : List Rule :=
@@ -435,17 +434,17 @@ def adjustRules (add rpb : CoinList) (rs : List Rule) : List Rule :=
 The Go code adds `startHeight + availableHeight` in `int64` without a check (it wraps for start
 heights near 2^63); that corner is outside the operation alphabet and is a panic here. -/
 def adjustCore (s : State) (id : PoolId) (p1 : Pool) (startHeight : Int) (started : Bool) (add rpb : CoinList) : R :=
-  match availableHeight (adjustRules add rpb p1.rules)
-          (availableReward started (p1.endH - startHeight).toNat add (adjustRules add [] p1.rules)) with
-  | none => .error (.panic "index out of range / Int64 out of bound")
+  match availableHeight (availableReward started (p1.endH - startHeight).toNat add (adjustRules add [] p1.rules))
+          (adjustRules add rpb p1.rules) with
+  | none => .error (.panic "division by zero / Int64 out of bound")
   | some ah =>
-    if startHeight + (ah : Int) > maxI64 then .error (.panic "outside the alphabet: int64 end height overflow") else
-    if startHeight + (ah : Int) = p1.endH then
+    if startHeight + ah > maxI64 then .error (.panic "outside the alphabet: int64 end height overflow") else
+    if startHeight + ah = p1.endH then
       .ok (setPool s id { p1 with rules := adjustRules add rpb p1.rules })
     else
       .ok (enqueue (setPool (dequeue s id p1.endH) id
-              { p1 with rules := adjustRules add rpb p1.rules, endH := startHeight + (ah : Int) })
-            id (startHeight + (ah : Int)))
+              { p1 with rules := adjustRules add rpb p1.rules, endH := startHeight + ah })
+            id (startHeight + ah))
 
 /-- keeper `AdjustPool` on the stored record `p` (`add`/`rpb`: the message's coin lists, empty = absent) -/
 def adjustPoolAt (s : State) (sender : Addr) (id : PoolId) (p : Pool) (add rpb : CoinList) : R :=
